@@ -8,6 +8,13 @@
 #include <crypto/hmac_sha256.h>
 #include <crypto/hmac_sha512.h>
 #include <crypto/hkdf_sha256_32.h>
+#include <crypto/chacha20.h>
+#include <crypto/poly1305.h>
+#include <crypto/chacha20poly1305.h>
+#include <span.h>
+#include <crypto/siphash.h>
+#include <crypto/sha3.h>
+#include <uint256.h>
 #include <algorithm>
 #include <map>
 #include <span>
@@ -45,6 +52,136 @@ void feed(H& h, const std::vector<unsigned char>& msg, const std::vector<size_t>
 
 // every SHA-256 implementation selectable at run time (on CPUs lacking one the selection falls back
 // and the name repeats; the result must be identical in any case)
+std::vector<std::byte> bytes_of(const std::vector<unsigned char>& v)
+{
+    std::vector<std::byte> out(v.size());
+    for (size_t i = 0; i < v.size(); ++i) out[i] = std::byte{v[i]};
+    return out;
+}
+std::string hexb(const std::vector<std::byte>& v)
+{
+    std::vector<unsigned char> u(v.size());
+    for (size_t i = 0; i < v.size(); ++i) u[i] = std::to_integer<unsigned char>(v[i]);
+    return vd::hex(u);
+}
+std::vector<std::string> split(const std::string& s, char sep)
+{
+    std::vector<std::string> out;
+    size_t pos = 0;
+    while (pos <= s.size()) {
+        size_t c = s.find(sep, pos);
+        if (c == std::string::npos) c = s.size();
+        out.push_back(s.substr(pos, c - pos));
+        pos = c + 1;
+    }
+    return out;
+}
+void flip(std::vector<std::byte>& v, size_t bit)
+{
+    if (bit / 8 < v.size()) v[bit / 8] ^= std::byte(1u << (bit % 8));
+}
+
+// ---- snippet starts here ----
+// Like feed(), for hashers whose Write takes std::span<const unsigned char> (CSipHasher, SHA3_256).
+template <typename H>
+void feed_span(H& h, const std::vector<unsigned char>& msg, const std::vector<size_t>& sz)
+{
+    size_t off = 0;
+    for (size_t n : sz) {
+        if (off + n > msg.size()) throw std::runtime_error("fragment sizes exceed the message");
+        std::vector<unsigned char> piece(msg.begin() + off, msg.begin() + off + n);
+        h.Write(std::span<const unsigned char>{piece.data(), piece.size()});
+        off += n;
+    }
+    if (off != msg.size()) throw std::runtime_error("fragment sizes do not cover the message");
+}
+
+uint256 u256_from_bytes(const std::vector<unsigned char>& v)
+{
+    if (v.size() != 32) throw std::runtime_error("uint256 needs 32 bytes");
+    return uint256{std::span<const unsigned char>{v.data(), v.size()}};   // memory order: byte i = v[i]
+}
+
+// returns true and sets `out` when the line is one of the SipHash / SHA3 cases
+bool sip_sha3_case(const std::vector<std::string>& w, std::string& out)
+{
+    // siphash <k0> <k1> <hexmsg> <sizes>  ->  decimal uint64
+    if (w.size() == 5 && w[0] == "siphash") {
+        CSipHasher h(vd::ull(w[1]), vd::ull(w[2]));
+        feed_span(h, vd::unhex(w[3]), sizes(w[4]));
+        out = std::to_string(h.Finalize());
+        return true;
+    }
+    // siphash_w64 <k0> <k1> <hexmsg, multiple of 8 bytes>: Write(uint64_t) per 8 bytes (little endian)
+    if (w.size() == 4 && w[0] == "siphash_w64") {
+        auto msg = vd::unhex(w[3]);
+        if (msg.size() % 8) { out = "BADCASE"; return true; }
+        CSipHasher h(vd::ull(w[1]), vd::ull(w[2]));
+        for (size_t i = 0; i < msg.size(); i += 8) {
+            uint64_t v = 0;
+            for (int j = 7; j >= 0; --j) v = (v << 8) | msg[i + j];
+            h.Write(v);
+        }
+        out = std::to_string(h.Finalize());
+        return true;
+    }
+    // siphash_u256 <k0> <k1> <hex32>
+    if (w.size() == 4 && w[0] == "siphash_u256") {
+        const PresaltedSipHasher h(vd::ull(w[1]), vd::ull(w[2]));
+        out = std::to_string(h(u256_from_bytes(vd::unhex(w[3]))));
+        return true;
+    }
+    // siphash_u256x <k0> <k1> <hex32> <extra>
+    if (w.size() == 5 && w[0] == "siphash_u256x") {
+        const PresaltedSipHasher h(vd::ull(w[1]), vd::ull(w[2]));
+        out = std::to_string(h(u256_from_bytes(vd::unhex(w[3])), (uint32_t)vd::ull(w[4])));
+        return true;
+    }
+    // siphash13uj <k0> <k1> <blocks>: blocks = comma separated, each 16 hex digits (normal block, the
+    // LE64 bytes) or 64 hex digits (jumbo block), "-" for none
+    if (w.size() == 4 && w[0] == "siphash13uj") {
+        SipHasher13UJ h(vd::ull(w[1]), vd::ull(w[2]));
+        if (w[3] != "-") {
+            std::istringstream is(w[3]);
+            std::string b;
+            while (std::getline(is, b, ',')) {
+                auto bytes = vd::unhex(b);
+                if (bytes.size() == 8) {
+                    uint64_t v = 0;
+                    for (int j = 7; j >= 0; --j) v = (v << 8) | bytes[j];
+                    h.Write(v);
+                } else if (bytes.size() == 32) {
+                    h.WriteJumbo(u256_from_bytes(bytes));
+                } else { out = "BADCASE"; return true; }
+            }
+        }
+        out = std::to_string(h.Finalize());
+        return true;
+    }
+    // sha3 <hexmsg> <sizes>  ->  hex digest
+    if (w.size() == 3 && w[0] == "sha3") {
+        SHA3_256 h;
+        feed_span(h, vd::unhex(w[1]), sizes(w[2]));
+        unsigned char d[SHA3_256::OUTPUT_SIZE];
+        h.Finalize(d);
+        out = vd::hex(d, d + sizeof(d));
+        return true;
+    }
+    // keccakf <hex200>: the permutation on 25 little-endian lanes
+    if (w.size() == 2 && w[0] == "keccakf") {
+        auto in = vd::unhex(w[1]);
+        if (in.size() != 200) { out = "BADCASE"; return true; }
+        uint64_t st[25];
+        for (int i = 0; i < 25; ++i) { st[i] = 0; for (int j = 7; j >= 0; --j) st[i] = (st[i] << 8) | in[8 * i + j]; }
+        KeccakF(st);
+        std::vector<unsigned char> o;
+        for (int i = 0; i < 25; ++i) for (int j = 0; j < 8; ++j) o.push_back((unsigned char)(st[i] >> (8 * j)));
+        out = vd::hex(o);
+        return true;
+    }
+    return false;
+}
+
 const sha256_implementation::UseImplementation IMPLS[] = {
     sha256_implementation::STANDARD, sha256_implementation::USE_SSE4, sha256_implementation::USE_SSE4_AND_AVX2,
     sha256_implementation::USE_SSE4_AND_SHANI, sha256_implementation::USE_ALL};
@@ -134,6 +271,120 @@ int main(int argc, char** argv)
             hk.Expand32(std::string(info.begin(), info.end()), out);
             return vd::hex(out, out + sizeof(out));
         }
+        if (w.size() == 7 && w[0] == "chacha20") {
+            auto key = bytes_of(vd::unhex(w[1]));
+            auto data = bytes_of(vd::unhex(w[5]));
+            ChaCha20 c{key};
+            c.Seek({(uint32_t)vd::ull(w[2]), (uint64_t)vd::ull(w[3])}, (uint32_t)vd::ull(w[4]));
+            std::vector<std::byte> res;
+            size_t off = 0;
+            if (w[6] != "-") {
+                for (const auto& t : split(w[6], ',')) {
+                    size_t n = std::stoul(t.substr(1));
+                    std::vector<std::byte> out(n);
+                    if (t[0] == 'c') {
+                        if (off + n > data.size()) throw std::runtime_error("ops exceed data");
+                        std::vector<std::byte> piece(data.begin() + off, data.begin() + off + n);
+                        c.Crypt(piece, out);
+                        off += n;
+                    } else {
+                        c.Keystream(out);
+                    }
+                    res.insert(res.end(), out.begin(), out.end());
+                }
+            }
+            return hexb(res);
+        }
+        if (w.size() == 4 && w[0] == "fschacha") {
+            auto key = bytes_of(vd::unhex(w[1]));
+            FSChaCha20 c{key, (uint32_t)vd::ull(w[2])};
+            std::string out;
+            for (const auto& t : split(w[3], ',')) {
+                auto d = bytes_of(vd::unhex(t));
+                std::vector<std::byte> o(d.size());
+                c.Crypt(d, o);
+                out += (out.empty() ? "" : ",") + hexb(o);
+            }
+            return out;
+        }
+        if (w.size() == 4 && w[0] == "poly1305") {
+            auto key = bytes_of(vd::unhex(w[1]));
+            auto msg = bytes_of(vd::unhex(w[2]));
+            auto sz = sizes(w[3]);
+            Poly1305 p{key};
+            size_t off = 0;
+            for (size_t n : sz) {
+                if (off + n > msg.size()) throw std::runtime_error("fragment sizes exceed the message");
+                std::vector<std::byte> piece(msg.begin() + off, msg.begin() + off + n);
+                p.Update(piece);
+                off += n;
+            }
+            if (off != msg.size()) throw std::runtime_error("fragment sizes do not cover the message");
+            std::vector<std::byte> tag(Poly1305::TAGLEN);
+            p.Finalize(tag);
+            return hexb(tag);
+        }
+        if (w.size() == 7 && (w[0] == "aead_enc" || w[0] == "aead_dec")) {
+            auto key = bytes_of(vd::unhex(w[1]));
+            AEADChaCha20Poly1305::Nonce96 nonce{(uint32_t)vd::ull(w[2]), (uint64_t)vd::ull(w[3])};
+            auto aad = bytes_of(vd::unhex(w[4]));
+            auto in = bytes_of(vd::unhex(w[5]));
+            size_t len1 = std::stoul(w[6]);
+            AEADChaCha20Poly1305 a{key};
+            if (w[0] == "aead_enc") {
+                if (len1 > in.size()) return std::string("BADCASE");
+                std::vector<std::byte> p1(in.begin(), in.begin() + len1), p2(in.begin() + len1, in.end());
+                std::vector<std::byte> out(in.size() + AEADChaCha20Poly1305::EXPANSION);
+                a.Encrypt(p1, p2, aad, nonce, out);
+                return hexb(out);
+            }
+            if (in.size() < AEADChaCha20Poly1305::EXPANSION || len1 > in.size() - AEADChaCha20Poly1305::EXPANSION) return std::string("BADCASE");
+            std::vector<std::byte> p1(len1), p2(in.size() - AEADChaCha20Poly1305::EXPANSION - len1);
+            bool ok = a.Decrypt(in, aad, nonce, p1, p2);
+            return ok ? "ok " + hexb(p1) + " " + hexb(p2) : std::string("fail");
+        }
+        if (w.size() == 9 && w[0] == "aead_tamper") {
+            auto key = bytes_of(vd::unhex(w[1]));
+            AEADChaCha20Poly1305::Nonce96 nonce{(uint32_t)vd::ull(w[2]), (uint64_t)vd::ull(w[3])};
+            auto aad = bytes_of(vd::unhex(w[4]));
+            auto pl = bytes_of(vd::unhex(w[5]));
+            size_t len1 = std::stoul(w[6]);
+            size_t bit = std::stoul(w[8]);
+            if (len1 > pl.size()) return std::string("BADCASE");
+            std::vector<std::byte> out(pl.size() + AEADChaCha20Poly1305::EXPANSION);
+            {
+                AEADChaCha20Poly1305 a{key};
+                a.Encrypt(pl, aad, nonce, out);
+            }
+            if (w[7] == "ct") flip(out, bit);
+            else if (w[7] == "tag") flip(out, 8 * pl.size() + bit);
+            else if (w[7] == "aad") flip(aad, bit);
+            AEADChaCha20Poly1305 b{key};
+            std::vector<std::byte> p1(len1), p2(pl.size() - len1);
+            bool ok = b.Decrypt(out, aad, nonce, p1, p2);
+            return ok ? "ok " + hexb(p1) + " " + hexb(p2) : std::string("fail");
+        }
+        if (w.size() == 4 && w[0] == "fsaead") {
+            auto key = bytes_of(vd::unhex(w[1]));
+            uint32_t interval = (uint32_t)vd::ull(w[2]);
+            FSChaCha20Poly1305 enc{key, interval}, dec{key, interval};
+            std::string out;
+            bool all_ok = true;
+            for (const auto& t : split(w[3], ',')) {
+                auto pa = split(t, ':');
+                if (pa.size() != 2) return std::string("BADCASE");
+                auto pl = bytes_of(vd::unhex(pa[0]));
+                auto aad = bytes_of(vd::unhex(pa[1]));
+                std::vector<std::byte> c(pl.size() + FSChaCha20Poly1305::EXPANSION);
+                enc.Encrypt(pl, aad, c);
+                out += (out.empty() ? "" : ",") + hexb(c);
+                std::vector<std::byte> back(pl.size());
+                bool ok = dec.Decrypt(c, aad, back);
+                all_ok = all_ok && ok && back == pl;
+            }
+            return out + (all_ok ? " dec=ok" : " dec=FAIL");
+        }
+        { std::string r; if (sip_sha3_case(w, r)) return r; }
         if (w.size() == 1 && w[0] == "sha256impls") {
             std::string out;
             for (auto impl : IMPLS) out += (out.empty() ? "" : "|") + SHA256AutoDetect(impl);
